@@ -58,7 +58,7 @@ static void lst_make_sequence(vp_rng_t* r, int mode, uint64_t idx, seq_t* s)
         case 3: name = "truncate-any"; n = (size_t)vp_rng_below(r, n + 1); break;
         case 4: name = "truncate-0-64"; n = (size_t)vp_rng_below(r, 65); break;
         case 5: name = "empty-datagram"; n = 0; break;
-        case 6: name = "random-bytes"; n = (size_t)vp_rng_below(r, 1501); vp_rng_fill(r, b, n); break;
+        case 6: name = "random-bytes"; n = (size_t)vp_rng_below(r, 1601); vp_rng_fill(r, b, n);   /* up to 100 bytes more than any receive buffer holds */ break;
         case 7: name = "acf-length-lie"; Avtp_Gpc_SetAcfMsgLength(g, (uint16_t)vp_rng_below(r, 512)); break;
         case 8: name = "headers-only-gpc-type"; n = hdr; Avtp_Gpc_SetAcfMsgLength(g, 2); break;
         case 9: name = "bit-flips"; mutate_bytes(r, b, n, 1 + (int)vp_rng_below(r, 5)); break;
@@ -80,7 +80,9 @@ static int lst_child(int mode, const seq_t* s)
     char* argv_u[] = { "hello-world-listener", "-u", 0 };
     char* argv_r[] = { "hello-world-listener", 0 };
     listener_main(mode ? 2 : 1, mode ? argv_u : argv_r);
-    return EX_HARNESS;      /* the loop only ends through finish_mainloop() */
+    /* the receive loop of main() ended: the listener gave up on a datagram instead of going on to the next one */
+    fprintf(stderr, "VP-TERMINATED: the listener's main() returned after datagram %d\n", g_cur_dgram);
+    return EX_TERMINATED;
 }
 #ifndef LST_FUZZ
 int main(void) { return lst_driver_main(); }
